@@ -1,7 +1,7 @@
 \* C02 diagdest, the wider alphabet (+ internal fatal error, EXPECT / ENDEXPECT, constructs left open: messages raised
-\* at ENDEXPECT / at the end of the pass go where ListOn stands THEN) x -w x -maxerrors {0,1,2}: <= 3 line classes of 19
+\* at ENDEXPECT / at the end of the pass go where ListOn stands THEN) x -w x -maxerrors {0,1}: <= 3 line classes of 19
 CONSTANTS MaxLines = 3 MaxFiles = 1 MaxLater = 0 Wrap = 0 Leaky = {} DestRule = "coded"
-CONSTANTS Kinds <- KindsDestAll OptSpace <- OptsDestW
+CONSTANTS Kinds <- KindsDestAll OptSpace <- OptsDestS
 SPECIFICATION Spec
 INVARIANT Claims
 ACTION_CONSTRAINT TCover
